@@ -615,6 +615,29 @@ class CoreMixin:
             return self.unknown(f"module-attr:{sub}", site)
         if op == "Ext":
             return self.ext(f"{obj.attr}.{name}", site)
+        if op == "Class" and name == "model_fields" and getattr(self, "schema", None) is not None and \
+                obj.attr.qualname in self.schema.models:
+            # pydantic's class-level field table, from the class definition: {name: field} in definition order
+            m = self.schema.models[obj.attr.qualname]
+            keys, args = [], []
+            for fname, f in m.fields.items():
+                fn = self.mk("PydField", (), (m.ci.qualname, fname), site)
+                fn.extra = {"field": f, "model": m}
+                keys.append(("k", fname))
+                args.append(fn)
+            return self.mk("Dict", args, tuple(keys), site)
+        if op == "PydField" and name == "annotation":
+            f = obj.extra["field"]
+            members = [self.class_node(mm.ci) for mm in f.models]
+            if f.prim in ("float", "int", "str", "bool"):
+                members.append(self.ext("builtins." + f.prim, site))
+            if f.optional:
+                members.append(self.ext("types.NoneType", site))
+            if len(members) == 1 and not f.optional:
+                return members[0]               # a plain class
+            n = self.mk("PydAnnot", (), obj.attr, site)     # Optional[...] / Union[...]
+            n.extra = {"members": members, "field": f}
+            return n
         if op == "Class":
             return self.class_attr(obj.attr, name, st, fr, site, via_class=obj)
         if op == "Obj":
